@@ -3,6 +3,7 @@ package main
 import (
 	"fmt"
 	"path/filepath"
+	"strings"
 	"time"
 
 	"verif/harness/internal/core"
@@ -55,8 +56,55 @@ func buildArmedHist(c *core.Ctx, idx int) *armedHist {
 	if idx%150 == 17 {
 		shape = 8
 	}
+	if idx%20 == 5 {
+		shape = 9
+	}
 	var armed *proto.Stmt
 	switch shape {
+	case 9:
+		// the record of the INSERT that moves the table's root is the one with
+		// which the statement's log bytes reach a power of two (512 B ... 128
+		// KiB): if the log append is cut into pieces of such a size, the cut
+		// falls between that record and the catalog record that belongs to it
+		pw := r.Range(9, 17)
+		size := 1 << uint(pw)
+		var padLen, before int
+		for {
+			padLen = r.Range(10, 255)
+			rec := 29 + 15 + padLen // record header + row (k, g, pad) as encoded
+			before = (size - 1) / rec
+			if (pw <= 11 && before <= 8) || (pw > 11 && before <= 1100) {
+				break
+			}
+		}
+		mover := 9 // the row with which a fresh table's root moves
+		if pw > 11 {
+			mover = 1165 // ... and with which its internal root splits
+		}
+		ct := &proto.Stmt{Kind: "create", Table: "pw", Defs: []proto.ColDef{{Name: "k", Type: "int"}, {Name: "g", Type: "int"}, {Name: "pad", Type: "varchar", Len: 255}}}
+		push(ct)
+		next := 0
+		mk := func(n int) *proto.Stmt {
+			st := &proto.Stmt{Kind: "insert", Table: "pw"}
+			for i := 0; i < n; i++ {
+				st.Rows = append(st.Rows, []proto.Val{proto.Int(int64(next)), proto.Int(1), proto.Str(strings.Repeat("p", padLen))})
+				next++
+			}
+			return st
+		}
+		for pre := mover - 1 - before; pre > 0; {
+			n := pre
+			if n > 300 {
+				n = 300
+			}
+			push(mk(n))
+			pre -= n
+		}
+		armed = mk(before + 1 + r.Range(2, 6))
+		ah.shape = fmt.Sprintf("insert-root-move-at-log-byte-2^%d", pw)
+		if pw > 11 {
+			ah.shape = fmt.Sprintf("insert-internal-root-move-at-log-byte-2^%d", pw)
+		}
 	case 8:
 		// the armed INSERT crosses the split of the table's internal root
 		// (the 1165th row): the root moves in mid-batch on a three-level tree
@@ -170,7 +218,7 @@ func pickUsable(h *gen.Hist, r *core.Rand) *model.Table {
 
 func checkC03(c *core.Ctx) []core.Floor {
 	c.Level = "fault_enumeration"
-	c.Rule = "seeded prefix histories followed by one multi-row INSERT/UPDATE/DELETE (2-14 row operations; a third of the INSERTs move the table's root in mid-batch); a crash image is taken immediately before EVERY write and fsync the statement issues on the log file, in two cuts (log as written / log as of the last fsync). Each image is recovered in a fresh process; the state must equal pre-state + first j row operations for some j; recovery is repeated; then 3-8 further statements are checked against the model continued from that j-state. Distinct = image; non-trivial = recovery of the image replayed at least one log record."
+	c.Rule = "seeded prefix histories followed by one multi-row INSERT/UPDATE/DELETE (2-14 row operations; a third of the INSERTs move the table's root in mid-batch; one history in twenty places the root-moving record exactly where the statement's log bytes reach 2^9 ... 2^17, on fresh tables and on tables about to split their internal root); a crash image is taken immediately before EVERY write and fsync the statement issues on the log file, in two cuts (log as written / log as of the last fsync). Each image is recovered in a fresh process; the state must equal pre-state + first j row operations for some j; recovery is repeated; then 3-8 further statements are checked against the model continued from that j-state. Distinct = image; non-trivial = recovery of the image replayed at least one log record."
 	c.Assume = []string{"process-death crash model; the fsync cut applies to the log only", "the data file is untouched while a statement appends to the log (timer off: a flush cannot interleave, which is C13's claim)"}
 	drv := mustDriver(c, false)
 	n := 1200
